@@ -97,22 +97,21 @@ Qed.
 
 Theorem known_C01 : check_prop 1 e (c_trace c) (c_labels c) = true.
 Proof.
-  cbn [check_prop]. destruct (has_skip (c_trace c) || has_panic (c_trace c)) eqn:E; [reflexivity|].
-  unfold chk_C01. rewrite known_nodup. cbn [andb]. apply known_noloss. unfold clean. rewrite E. reflexivity.
+  cbn [check_prop]. rewrite known_nodup. cbn [andb].
+  destruct (has_skip (c_trace c) || has_panic (c_trace c)) eqn:E; [reflexivity|].
+  apply known_noloss. unfold clean. rewrite E. reflexivity.
 Qed.
 
 Theorem known_C06 : check_prop 6 e (c_trace c) (c_labels c) = true.
 Proof.
-  cbn [check_prop]. destruct (has_skip (c_trace c) && negb (has_panic (c_trace c))); [|reflexivity].
-  unfold chk_C06. rewrite known_C06_stop, known_nodup, known_C02, known_C04_order. reflexivity.
+  cbn [check_prop]. unfold chk_C06. rewrite known_C06_stop, known_nodup, known_C02, known_C04_order. reflexivity.
 Qed.
 
 Theorem known_C12 : check_prop 12 e (c_trace c) (c_labels c) = true.
 Proof.
-  cbn [check_prop]. destruct (has_loop (c_trace c)); [|reflexivity]. cbn [andb].
-  destruct (has_skip (c_trace c) || has_panic (c_trace c)) eqn:E; [reflexivity|]. cbn [negb].
-  unfold chk_C12, chk_C01. rewrite known_C12_shape, known_nodup, known_C02, known_C05. cbn [andb].
-  rewrite !andb_true_r. apply known_noloss. unfold clean. rewrite E. reflexivity.
+  cbn [check_prop]. rewrite known_C12_shape, known_nodup, known_C02, known_C05. cbn [andb].
+  destruct (has_skip (c_trace c) || has_panic (c_trace c)) eqn:E; [reflexivity|].
+  apply known_noloss. unfold clean. rewrite E. reflexivity.
 Qed.
 
 Lemma sched_in_L : Forall (fun t => In t L) sched.
@@ -120,8 +119,8 @@ Proof. apply Forall_forall. intros t Ht. apply nodup_In. exact Ht. Qed.
 
 Theorem known_C04 : check_prop 4 e (c_trace c) (c_labels c) = true.
 Proof.
-  cbn [check_prop]. destruct (has_panic (c_trace c)) eqn:Hnp; [reflexivity|].
-  unfold chk_C04. rewrite known_nodup, known_C04_order. cbn [andb]. rewrite andb_true_r.
+  cbn [check_prop]. rewrite known_nodup, known_C04_order. cbn [andb].
+  destruct (has_panic (c_trace c)) eqn:Hnp; [reflexivity|].
   destruct Hke as (He & Hk & Hown).
   apply prefix_exec with (L := L); try assumption; try apply NoDup_nodup; try apply sched_in_L.
 Qed.
